@@ -24,7 +24,7 @@ ASSUMPTIONS = [
     'of the peptide',
 ]
 BUDGET = {'quick': 500, 'thorough': 4000}
-FAMILIES = ['small', 'small', 'small', 'multi', 'as', 'fusion', 'circ', 'fuscirc']
+FAMILIES = ['small', 'small', 'small', 'multi', 'as', 'as_nested', 'fusion', 'circ', 'fuscirc']
 
 
 @st.composite
